@@ -33,7 +33,7 @@ def shape_level_up_only_when_minimized : Bool := true
 def shape_nomin_retry_only_when_minimized : Bool := true
 def shape_queryer_debit_before_dispatch : Bool := true
 def shape_queryer_depth_check_before_dispatch : Bool := true
-def shape_resolve_relabels_unconditionally : Bool := false
+def shape_resolve_relabels_unconditionally : Bool := true
 def shape_resolvestate_literals_carry_work : Bool := true
 def shape_subquery_debit_before_resolve : Bool := true
 
